@@ -27,13 +27,27 @@ candidate enumeration + scan performs, in the same order):
                                        (+ ` FUEL` / ` ASSERT` if a ghost flag of the model is set) and `val …` after the window;
                                        then `pass_reorder done <number of windows if w = 1, of write-backs otherwise>`
   h_window …                        -> nothing (H3b report, used on the harness side)
+  pass_shifts nbRows maxNbCells     -> nothing; from now on every `h_shift (c x)*` line must carry exactly the cells of the next window
+                                       of `runShifts` as modelled (`shiftRowGroups`, `State.shiftWindows`: row groups of
+                                       RowNeighbourhood(rows, nbRows/2), cells sorted by (x, index) when the group starts, overlapping
+                                       windows) — `shift-window-mismatch …` otherwise — before it is replayed as before
+  pass_shifts_end                   -> `pass_shifts done <number of windows>` | `pass_shifts missing-window …`
 -/
 namespace Driver.DetValueIO
 open ColoVerif ColoVerif.DetPlace Driver Driver.DetPlaceIO
 
+/-- a `runShifts` pass being replayed: the row groups not started yet, the windows of the running group that
+have not been seen yet, `maxNbCells`, and the number of windows seen -/
+structure ShiftPlan where
+  groups : List (List Int)
+  queue : List (List Int)
+  maxNbCells : Int
+  seen : Nat := 0
+
 structure VS where
   base : DS := {}
   pl : Option Placer := none
+  shifts : Option ShiftPlan := none
 
 def flag (b : Bool) : String := if b then "1" else "0"
 
@@ -99,6 +113,17 @@ def windowsText (v : VS) (withWin : Bool) : Placer → List WindowInfo → List 
       (if withWin then [winText w, s!"val {w.valueAfter} {(exportPlacement cur.pl v.base.circ).hpwl} {flag (cur.orientKept v.base.circ)}"] else []) ++
         windowsText v withWin cur ws ops
 
+/-- the next expected window: refill the queue from the next row groups (on the current placement) while it is empty -/
+def nextShiftWindow (st : State) : Nat → ShiftPlan → Option (List Int × ShiftPlan)
+  | 0, _ => none
+  | fuel + 1, pl =>
+    match pl.queue with
+    | w :: ws => some (w, { pl with queue := ws, seen := pl.seen + 1 })
+    | [] =>
+      match pl.groups with
+      | [] => none
+      | g :: gs => nextShiftWindow st fuel { pl with groups := gs, queue := st.shiftWindows g pl.maxNbCells }
+
 def mutating : List String := ["swap", "insert", "shift", "reorder", "unplace", "place"]
 
 def stepLine (v : VS) (ws : List String) : VS × List String :=
@@ -110,7 +135,32 @@ def stepLine (v : VS) (ws : List String) : VS × List String :=
     | .ok p => ({ base := { v.base with st := some p.pl }, pl := some p }, ["init ok"])
     | .error e => ({ base := { v.base with st := none }, pl := none }, ["init " ++ errName e])
   | op :: args =>
-    if op == "h_window" then (v, [])
+    if op == "pass_shifts" then
+      match v.pl, ints args with
+      | some p, [a, b] =>
+        ({ v with shifts := some { groups := shiftRowGroups p.pl.rows a, queue := [], maxNbCells := b } }, [])
+      | _, _ => (v, ["bad-op " ++ " ".intercalate ws])
+    else if op == "pass_shifts_end" then
+      match v.pl, v.shifts with
+      | some p, some plan =>
+        -- nothing may be left but groups without cells
+        match nextShiftWindow p.pl (plan.groups.length + 1) plan with
+        | none => ({ v with shifts := none }, [s!"pass_shifts done {plan.seen}"])
+        | some (w, _) => ({ v with shifts := none }, [s!"pass_shifts missing-window{intsStr w} after {plan.seen}"])
+      | _, _ => (v, ["pass_shifts no-plan"])
+    else if op == "h_shift" && v.shifts.isSome then
+      match v.pl, v.shifts with
+      | some p, some plan =>
+        let mv := pairs (ints args)
+        match nextShiftWindow p.pl (plan.groups.length + 1) plan with
+        | none => (v, [s!"shift-window-unexpected{intsStr (mv.map (·.1))}"])
+        | some (w, plan') =>
+          if w == mv.map (·.1) then
+            let r := doStep v p "shift" (.shift mv)
+            ({ r.1 with shifts := some plan' }, r.2)
+          else (v, [s!"shift-window-mismatch expected{intsStr w} got{intsStr (mv.map (·.1))}"])
+      | _, _ => (v, ["no-state " ++ op])
+    else if op == "h_window" then (v, [])
     else if op == "pass_swaps" || op == "pass_inserts" || op == "pass_reorder" then
       match v.pl with
       | none => (v, ["no-state " ++ op])
